@@ -124,8 +124,40 @@ impl<'a, T: Idx, Q: MocQty<T>> RangeMOCIterator<T> for BoxIt<'a, T, Q> {
   }
 }
 
-pub const N_KINDS: u64 = 8;
-pub const KIND_NAMES: [&str; 8] = ["owned", "borrowed", "cells-adapter", "cellranges-adapter", "fits-stream", "builder-iter", "ascii-parsed-borrowed", "json-parsed-borrowed"];
+pub const N_KINDS: u64 = 9;
+pub const KIND_NAMES: [&str; 9] = ["owned", "borrowed", "cells-adapter", "cellranges-adapter", "fits-stream", "builder-iter", "ascii-parsed-borrowed", "json-parsed-borrowed", "user-cells-with-hint"];
+
+/// A user implementation of the public `CellMOCIterator` trait over a vector of cells which, unlike the
+/// crate's own cell iterators, forwards the (exact) size hint of the vector iterator.
+pub struct HintedCells<T: Idx, Q: MocQty<T>> {
+  depth: u8,
+  last: Option<moc::elem::cell::Cell<T>>,
+  it: std::vec::IntoIter<moc::elem::cell::Cell<T>>,
+  _q: PhantomData<Q>,
+}
+impl<T: Idx, Q: MocQty<T>> HasMaxDepth for HintedCells<T, Q> {
+  fn depth_max(&self) -> u8 {
+    self.depth
+  }
+}
+impl<T: Idx, Q: MocQty<T>> ZSorted for HintedCells<T, Q> {}
+impl<T: Idx, Q: MocQty<T>> NonOverlapping for HintedCells<T, Q> {}
+impl<T: Idx, Q: MocQty<T>> MOCProperties for HintedCells<T, Q> {}
+impl<T: Idx, Q: MocQty<T>> Iterator for HintedCells<T, Q> {
+  type Item = moc::elem::cell::Cell<T>;
+  fn next(&mut self) -> Option<Self::Item> {
+    self.it.next()
+  }
+  fn size_hint(&self) -> (usize, Option<usize>) {
+    self.it.size_hint()
+  }
+}
+impl<T: Idx, Q: MocQty<T>> CellMOCIterator<T> for HintedCells<T, Q> {
+  type Qty = Q;
+  fn peek_last(&self) -> Option<&moc::elem::cell::Cell<T>> {
+    self.last.as_ref()
+  }
+}
 
 /// Build a source of the given kind over `moc`.
 pub fn make_src<'a, C: Combo>(kind: u64, moc: &'a RangeMOC<C::T, C::Q>) -> BoxIt<'a, C::T, C::Q> {
@@ -159,6 +191,13 @@ pub fn make_src<'a, C: Combo>(kind: u64, moc: &'a RangeMOC<C::T, C::Q>) -> BoxIt
       let parsed = moc::deser::json::from_json_aladin::<C::T, C::Q>(std::str::from_utf8(&txt).unwrap()).expect("in-memory JSON read");
       let leaked: &'static moc::moc::cell::CellMOC<C::T, C::Q> = Box::leak(Box::new(parsed));
       BoxIt::new(leaked.into_cell_moc_iter().ranges())
+    }
+    8 => {
+      let cells: Vec<moc::elem::cell::Cell<C::T>> = moc.into_range_moc_iter().cells().collect();
+      BoxIt::new(
+        HintedCells::<C::T, C::Q> { depth: moc.depth_max(), last: cells.last().cloned(), it: cells.into_iter(), _q: PhantomData }
+          .ranges(),
+      )
     }
     _ => {
       let cells: Vec<C::T> = moc.flatten_to_fixed_depth_cells().collect();
